@@ -349,7 +349,14 @@ def replay(v):
         return False, "figures agree with the rebuild on the recorded draw sequence"
     tree = initial_tree(inputs, output, size, case["init"])
     try:
-        tree = history.replay_history(tree, v["history"], arrays=None)
+        def observe(t):
+            # the driver compares (a copy of) every state it reaches with a rebuild
+            try:
+                check_state(t)
+            except Exception:  # noqa
+                pass
+
+        tree = history.replay_history(tree, v["history"], arrays=None, observe=observe)
     except Exception as e:  # noqa
         return False, f"replay of the history raised {e!r}"
     d = check_state(tree)
